@@ -8,3 +8,5 @@ HOOKS = {
 NOTES = "See DESIGN.md. Every check: regenerates coq/Gen/Facts.v from /repo, rebuilds the property's Coq targets, re-runs Print Assumptions, rebuilds the harness against /repo's working tree, runs it, evaluates the Impl model on the same cases inside Coq."
 ALL = ["C%02d" % i for i in range(1, 21)]
 NA_REASONS = {}
+# properties whose check has been integrated and verified by the coordinator (others stay in not_applicable until then)
+READY = ["C01", "C02", "C05", "C16"]
